@@ -16,7 +16,7 @@ T = {
          'Programs x storage configs enumerated. Stubs: malloc returns fresh live object, never NULL; hooks do not touch the struct. Sub-object bounds as in DESIGN §2/E3.', '§4 C03'),
  'C04': ('model_checking', 'unwinding assertions on the re-dispatch loop of emitted C (LLVM-IR symbolic execution) and of the abstract machine, all states x symbolic byte/data',
          'No feasible path performs more than N+2 non-consuming moves for one symbol, for every (state, byte|end, data); yield re-invocations bounded likewise.',
-         'Programs x configs enumerated; data within Inv. Compile-time rejection clause checked on corpus/generator cycle candidates.', '§4 C04'),
+         'Programs x configs enumerated; data within Inv. Compile-time clause: corpus/cycle/*.nmfu (syntactic non-consuming-cycle candidates) must be rejected by the compiler, any accepted one must pass the unwinding assertions; yield clause: a 1-byte chunk driven with re-invocation after each yield must stop yielding within N+1 calls.', '§4 C04'),
  'C05': ('translation_validation', 'solver-checked one-step simulation (identity relation) between the pre- and post-optimisation DFA of one real compilation, eager normal form',
          'For every state present in both machines, every byte/End and all data, one normalised step yields equal events, outputs, consumption and successor: equality of behaviour on inputs of every length by induction.',
          'Programs x optimisation-flag subsets x thresholds enumerated; on a step difference a bounded run from start() decides (only replayed differences are violations).', '§4 C05'),
@@ -37,7 +37,7 @@ T = {
          'Programs x configs enumerated; <= 3 calls x <= 3 bytes.', '§4 C10'),
  'C12': ('translation_validation', 'relational LLVM-IR symbolic execution of two builds differing only in representation options, inductive alpha-related step',
          'From alpha-related arbitrary pre-states one symbolic byte / end gives equal codes, alpha-related post-states and equal hook sequences.',
-         'Programs x option pairs enumerated; states matched by index (determinism = C20).', '§4 C12'),
+         'Programs x option pairs enumerated; states of the two builds are paired by a structural correspondence (state numbering is not stable across compilations) which the solver then verifies step by step; inputs on which the program reads unspecified buffer content or has undefined arithmetic are excluded.', '§4 C12'),
  'C13': ('translation_validation', 'two real compilations (macro program vs own textual expansion) compared by z3 one-step simulation / BMC on the compiled DFAs',
          'Verdict equality and, when accepted, solver-decided trace equality for all inputs (certificate) or up to K bytes (BMC).',
          'Program pairs enumerated (generator + corpus).', '§4 C13'),
@@ -46,13 +46,13 @@ T = {
          'Expression trees enumerated (all operator pairs + generated); literals < 2^31.', '§4 C14'),
  'C15': ('other', 'CrossHair symbolic execution of the literal decoders/encoders of nmfu.py + z3 queries on emitted literal comparisons',
          'decode(spelling(bytes)) == bytes and emitted C literal denotes exactly those bytes, for every byte value 0..255 at every position of literals up to 4 bytes.',
-         'literal <= 4 bytes; digit arithmetic of int() trusted.', '§4 C15'),
+         'CrossHair kernels: literal <= 4 bytes within the per-harness bounds listed in evidence; digit arithmetic of int() trusted. L2/L3 clause: every byte value (quick: 44 values + 8 pairs) in each context (match, casei, binary string, binary regex, assignment, default, char-constant append), input byte symbolic.', '§4 C15'),
  'C16': ('model_checking', 'z3-verified certificate + BMC between the compiled wait machine and an independently built restart automaton; reachability queries for FAIL/handler',
          'Marker reached exactly at the first restart-semantics match; no input reaches FAIL or the enclosing handler from inside the wait.',
          'Patterns enumerated (generated).', '§4 C16'),
  'C17': ('model_checking', 'LLVM-IR symbolic execution of <p>_end from every state vs abstract machine End step; z3 queries that End/data transitions never cross',
          'end() from any control state and data returns DONE/finish code/FAIL exactly as the DFA\'s End move prescribes; no End transition taken on data byte and no data class on End.',
-         'Programs with EOF support enumerated.', '§4 C17'),
+         'Programs with EOF support enumerated (+ corpus/generated programs recompiled with -feof-support, also at -O3). Two clauses: emitted <p>_end vs the DFA End move (L3), and the reference interpreter end-of-input step vs the DFA End move for all inputs up to K bytes (L2). A yield returned from end() is outside the claim.', '§4 C17'),
  'C18': ('other', 'CrossHair symbolic execution of token/attribute decoders and message rendering of nmfu.py',
          'For all token texts (<= 4 body chars) and numeric attributes the kernels return or raise a diagnosed error, never another exception.',
          'Totality over program structure is NOT decided by the solver (watchdog by-product only).', '§4 C18'),
@@ -61,7 +61,7 @@ T = {
          'Fixpoint unrolled #flags+1 with unwinding assertion; option token <= 5 chars for the argv part.', '§4 C19'),
  'C20': ('translation_validation', 'machines compiled under different histories/hash seeds compared by z3-verified one-step simulation / BMC',
          'Same (source, options) under different histories and PYTHONHASHSEEDs gives equivalent machines (solver-decided for all inputs) and equal verdicts.',
-         'Histories, seeds and programs enumerated.', '§4 C20'),
+         'Histories, seeds and programs (also at -O3) enumerated; machines exported by pickling the real DFA objects from separate compiler processes.', '§4 C20'),
 }
 NA = {
  'C11': 'decided by the C/C++ compiler front end and its warning logic (-Wall -Werror, C and C++), which cannot be encoded for an SMT solver; the only quantifiers (programs x option sets) are the dimension this technique cannot make symbolic here, so there is no input/data quantifier for the solver to decide (DESIGN §4 C11).',
